@@ -142,11 +142,15 @@ def l141(kind, maxit):
     e = E()
     t0 = e.ticks
     fn = ser.deserialize_types[CONTAINERS[kind]]
+    e.step_limit = e.ticks + 2000
     try:
         v = fn(st)
         ok = True
     except Exception as ex:
         ok = False
+    except core.StepLimit:
+        e.step_limit = 10 ** 9
+        core.fail('the reader does not terminate within the step bound (hang)', kind=kind)
     work = e.ticks - t0
     total = rope.sx_len(data)
     if kind in ('seq', 'set', 'map'):
@@ -261,11 +265,15 @@ def l143(which):
     msg = hostile_message(which)
     e = E()
     t0 = e.ticks
+    e.step_limit = e.ticks + 3000
     try:
         fn(msg)
         outcome = 'ok'
     except Exception as ex:
         outcome = type(ex).__name__
+    except core.StepLimit:
+        e.step_limit = 10 ** 9
+        core.fail('the handshake entry point does not terminate within the step bound (hang)', which=which)
     except core.SxControl:
         raise
     except BaseException as ex:
@@ -278,7 +286,72 @@ def l143(which):
     check(True, 'entry point returns or raises an ordinary exception')
 
 
-R.add('L14.3', l143, [dict(which=w) for w in ('client_hello', 'server_hello', 'challenge')],
+def replay_l143(cfg, m):
+    """concrete: rebuild the hostile message of the model (big integer fields pushed to the int32 maximum, so
+    that a loop that follows a declared count shows as a hang rather than as a short delay) and run the real
+    entry point under an alarm"""
+    import io
+    import os
+    import signal
+    c = real('mpgameserver.connection')
+    s = real('mpgameserver.serializable')
+    which = cfg['which']
+
+    def ch(p, default=0):
+        for k, v in m.items():
+            if k.startswith(p + '#'):
+                return v
+        return default
+    if ch('form') == 0:
+        msg = bytes(m.get('m[%d]' % i, 0) for i in range(3))
+    else:
+        st = io.BytesIO()
+        tid = {'client_hello': c.HandshakeClientHelloMessage.type_id, 'server_hello': c.HandshakeServerHelloMessage.type_id,
+               'challenge': c.HandshakeClientChallengeResponseMessage.type_id}[which]
+        st.write(c.struct.pack('>H', tid))
+        for i in range(ch('nfields')):
+            fk = ch('field%d_kind' % i)
+            if fk == 0:
+                s.serialize_value(st, os.urandom(min(3000, m.get('f%d_len' % i, 0))))
+            elif fk == 1:
+                v = m.get('f%d_int' % i, 0)
+                s.serialize_value(st, 2 ** 31 - 1 if v >= 1000 else v)
+            else:
+                s.serialize_value(st, None)
+        msg = st.getvalue()
+    ctxt = real('mpgameserver.context').ServerContext(real('mpgameserver.handler').EventHandler())
+    if which == 'server_hello':
+        cn = c.ClientServerConnection(('srv', 9))
+        cn.server_public_key = real('mpgameserver.crypto').EllipticCurvePrivateKey.new().getPublicKey()
+        fn = cn._recvServerHello
+    else:
+        cn = c.ServerClientConnection(ctxt, ('cli', 1))
+        fn = cn._recvClientHello if which == 'client_hello' else cn._recvChallengeResponse
+        if which == 'challenge':
+            ctxt.temp_connections[cn.addr] = cn
+            cn.token = 0x40000001
+
+    class Hang(BaseException):
+        pass
+
+    def onalarm(*a):
+        raise Hang()
+    old = signal.signal(signal.SIGALRM, onalarm)
+    signal.alarm(5)
+    try:
+        try:
+            fn(msg)
+        except Exception:
+            pass
+        except Hang:
+            return True, '%s on %d hostile bytes (%s) did not return within 5 s' % (which, len(msg), msg[:24].hex())
+    finally:
+        signal.alarm(0)
+        signal.signal(signal.SIGALRM, old)
+    return False, 'returned'
+
+
+R.add('L14.3', l143, [dict(which=w) for w in ('client_hello', 'server_hello', 'challenge')], replay=replay_l143,
       desc='_recvClientHello/_recvServerHello/_recvChallengeResponse on arbitrary message bytes',
       expect=['entry point returns or raises an ordinary exception', 'handshake decode work is bounded'],
       bounds='3 fully symbolic bytes | right type id + <= 3 arbitrary fields (opaque bytes / int / None)',
